@@ -68,7 +68,7 @@ def skip_decision(ctx):
     ok = bool(rl) and all(param_of(e.recv(), 'env') and param_of(
         e.control(), 'regenerating') for e in rl) and all(
         any(pos and param_of(F.atoms(t, f_, b_), 'regenerating')
-            for t, pos, f_, b_ in F.guard_leaves(e.call, e.fn))
+            for t, pos, f_, b_ in F.guard_leaves(e.call, e.fn, e.bind))
         for e in rl)
     ctx.ob(R, 'load_toolchain|reload-when-regenerating', ok, lt.node,
            'stale toolchain settings survive a regeneration')
